@@ -990,6 +990,29 @@ pub fn c02(ctx: &Ctx) -> Report {
         cfg.remount_at_quiescent = true;
         run_case(&mut rng, &sc, &cfg, &mut model, &mut rep, &format!("c02/{}/{k}", ctx.seed));
     }
+    // a directory that grows by a cluster whose previous contents look like directory entries, and is then
+    // filled past the first block of the new cluster: a fresh mount must show exactly the files created
+    for k in 0..budget(ctx, 2, 10) {
+        let o = ScOpts { fat32: Some(k % 2 == 1), bpc_choices: vec![2, 4], big_tree: false, full_dir: true, dirty: true, limits: Some((4, 4, 1)), ..Default::default() };
+        let sc = make_scenario(&mut rng, &o);
+        let (v, d) = (sc.id_offset, sc.id_offset.wrapping_add(1));
+        let sub = sc.id_offset.wrapping_add(2);
+        let mut script = vec![Op::OpenVolume(sc.vols[0].slot), Op::OpenRoot(v), Op::OpenDir(d, "FULLDIR".into())];
+        for i in 0..20 {
+            script.push(Op::OpenFile(sub, format!("N{i:03}.TXT"), Mode::ReadWriteCreate));
+            if i % 5 == 0 {
+                script.push(Op::Write(LAST_FILE, vec![i as u8; 40 + i]));
+            }
+            script.push(Op::CloseFile(LAST_FILE));
+        }
+        script.push(Op::List(sub));
+        let mut cfg = RunCfg::base(script.len(), Profile::namespace());
+        cfg.script = Some(script);
+        cfg.tree_at_quiescent = true;
+        cfg.remount_at_quiescent = true;
+        rep.count("directory-grown-into-stale-cluster");
+        run_case(&mut rng, &sc, &cfg, &mut model, &mut rep, &format!("c02/{}/grow{k}", ctx.seed));
+    }
     kf_e5_name(&mut rep, &mut rng, &mut model);
     finish(rep, &model, "histories of create/write/truncate/append/delete/mkdir over pre-populated trees (nested directories, long-name entries, deleted slots, fragmented chains); every 15 operations and at the end all files are closed, the medium is dumped by the independent Lean FAT reader and compared entry for entry (names, attributes, sizes, raw creation and write stamps, content digests) with the reference tree, and a fresh VolumeManager lists and reads everything back; distinct = histories")
 }
@@ -1086,6 +1109,31 @@ pub fn c06(ctx: &Ctx) -> Report {
         cfg.quiesce_every = 20;
         cfg.tree_at_quiescent = true;
         run_case(&mut rng, &sc, &cfg, &mut model, &mut rep, &format!("c06/{}/{k}", ctx.seed));
+    }
+    // a sub-directory whose start cluster has a zero LOW word (cluster 0x10000 on a FAT32 volume with more than
+    // 65536 clusters: the FSInfo hint steers the next allocation there): listing, lookup, open_dir and a create
+    // inside must treat it as the directory the entry designates (the full 28-bit cluster number counts)
+    for k in 0..budget(ctx, 2, 12) {
+        let o = ScOpts { fat32: Some(true), bpc_choices: vec![1, 2], big_tree: k % 2 == 0, limits: Some((4, 4, 1)), ..Default::default() };
+        let mut sc = make_scenario(&mut rng, &o);
+        let l = sc.vols[0].layout.clone();
+        if l.clusters + 2 <= 0x1_0000 || mkfs::fat_get(&sc.blocks, &l, 0x1_0000) != 0 {
+            continue;
+        }
+        let mut info = sc.blocks.get(&l.info_block).copied().unwrap_or([0u8; 512]);
+        info[492..496].copy_from_slice(&0x1_0000u32.to_le_bytes());
+        sc.blocks.insert(l.info_block, info);
+        let (v, d) = (sc.id_offset, sc.id_offset.wrapping_add(1));
+        let sub = sc.id_offset.wrapping_add(2);
+        let mut cfg = RunCfg::base(0, Profile::namespace());
+        cfg.script = Some(vec![Op::OpenVolume(sc.vols[0].slot), Op::OpenRoot(v), Op::Mkdir(d, "HIGH".into()), Op::List(d), Op::Find(d, "HIGH".into()), Op::OpenDir(d, "HIGH".into()),
+            Op::List(sub), Op::OpenFile(sub, "IN.TXT".into(), Mode::ReadWriteCreate), Op::Write(LAST_FILE, vec![7u8; 700]), Op::CloseFile(LAST_FILE), Op::List(sub), Op::List(d),
+            Op::Find(sub, "IN.TXT".into()), Op::OpenDir(sub, "..".into()), Op::CloseDir(sub)]);
+        cfg.nops = 15;
+        cfg.tree_at_quiescent = true;
+        cfg.fsck_every_op = true;
+        rep.count("dir-at-cluster-0x10000");
+        run_case(&mut rng, &sc, &cfg, &mut model, &mut rep, &format!("c06/{}/high{k}", ctx.seed));
     }
     kf_e5_name(&mut rep, &mut rng, &mut model);
     kf_lookup_past_end(&mut rep, &mut rng);
